@@ -74,6 +74,8 @@ def run_case(ctx, kind_, idx):
                     td = {"family": "zero", "coef": []}
                 info.update({"trend": td, "normalized": normalized})
                 use_linear = td["family"] == "npscalar" and not via_weaver and bool(rng.integers(0, 2))
+                omit = (not normalized) and bool(rng.integers(0, 2))      # documented default: normalized=False
+                info["normalized_argument_omitted"] = omit
                 if via_weaver:
                     wv = Weaver(x.copy(), y.copy())
                     if rng.integers(0, 2):
@@ -81,7 +83,7 @@ def run_case(ctx, kind_, idx):
                         x, y = (np.array(a, dtype=float).copy() for a in wv.get())
                         if normalized and len(x) < 2:
                             return
-                    wv.trend(f, normalized=normalized)
+                    wv.trend(f) if omit else wv.trend(f, normalized=normalized)
                     gx, gy = wv.get()
                 elif use_linear:
                     a_lin = td["coef"][0]
@@ -89,11 +91,11 @@ def run_case(ctx, kind_, idx):
                     info["linear_trend_a"] = a_lin
                     xin, _k = gen.as_container(rng, x)
                     yin, _k2 = gen.as_container(rng, y)
-                    gx, gy = process.linear_trend(xin, yin, a_lin, normalized)
+                    gx, gy = process.linear_trend(xin, yin, a_lin) if omit else process.linear_trend(xin, yin, a_lin, normalized)
                 else:
                     xin, _k = gen.as_container(rng, x)
                     yin, _k2 = gen.as_container(rng, y)
-                    gx, gy = process.trend(xin, yin, f, normalized)
+                    gx, gy = process.trend(xin, yin, f) if omit else process.trend(xin, yin, f, normalized)
                 ctx.judged()
                 ctx.monitor("c14:trend")
                 span = float(x[-1] - x[0])
@@ -159,6 +161,9 @@ def run_case(ctx, kind_, idx):
             else:
                 lo = float(rng.choice([0.0, -1.0, 5.0, float(rng.normal(0, 10))]))
                 hi = lo + float(rng.choice([1.0, 10.0, 24.0, float(rng.lognormal(0, 1.5))]))
+                defaults = (not via_weaver) and rng.integers(0, 5) == 0       # documented defaults: range [0, 1]
+                if defaults:
+                    lo, hi = 0.0, 1.0
                 target = "x" if rng.integers(0, 2) else "y"
                 a = x if target == "x" else y
                 if float(np.min(a)) == float(np.max(a)):
@@ -176,7 +181,7 @@ def run_case(ctx, kind_, idx):
                     g = wv.get()[0 if target == "x" else 1]
                 else:
                     ain, _k = gen.as_container(rng, a)
-                    g = process.normalize(ain, lo, hi)
+                    g = process.normalize(ain) if defaults else process.normalize(ain, lo, hi)
                 ctx.judged()
                 ctx.monitor("c14:normalize")
                 rng_t = hi - lo
